@@ -54,6 +54,33 @@ class Tracer:
         self.path = []           # (boolnode, taken)
         self.fuel = 64           # max symbolic decisions per path
 
+    def _const_of(self, n):
+        node = self.g.nodes[n]
+        if node[0] == "const":
+            return Fraction(node[1], node[2])
+        return None
+
+    def _implied(self, cond):
+        """True/False if the path's earlier decisions on the same node against constants imply it"""
+        if cond[0] not in ("lt", "le"):
+            return None
+        for c, t in self.path:
+            if c[0] not in ("lt", "le"):
+                continue
+            # normalise both to facts of the form  n REL const
+            for (q, qt) in ((c, t),):
+                facts = _facts(self, q, qt)
+                goal_true = _facts(self, cond, True)
+                goal_false = _facts(self, cond, False)
+                for f in facts:
+                    for gt in goal_true:
+                        if _entails(f, gt):
+                            return True
+                    for gf in goal_false:
+                        if _entails(f, gf):
+                            return False
+        return None
+
     def decide(self, cond):
         # same condition decided before on this path -> same answer
         for c, t in self.path:
@@ -61,6 +88,9 @@ class Tracer:
                 return t
             if c == ("not", cond) or ("not", c) == cond:
                 return not t
+        imp = self._implied(cond)
+        if imp is not None:
+            return imp
         if self.pos >= self.fuel:
             raise FuelExhausted("more than %d symbolic decisions on one path" % self.fuel)
         if self.pos < len(self.schedule):
@@ -71,6 +101,39 @@ class Tracer:
         self.pos += 1
         self.path.append((cond, t))
         return t
+
+
+def _facts(tr, c, taken):
+    """facts (node, rel, const) with rel in {'<','<=','>','>='} expressed by deciding c as `taken`"""
+    op, a, b = c
+    ca, cb = tr._const_of(a), tr._const_of(b)
+    out = []
+    if cb is not None and ca is None:        # a op const
+        rel = {("lt", True): "<", ("lt", False): ">=", ("le", True): "<=", ("le", False): ">"}[(op, taken)]
+        out.append((a, rel, cb))
+    if ca is not None and cb is None:        # const op b
+        rel = {("lt", True): ">", ("lt", False): "<=", ("le", True): ">=", ("le", False): "<"}[(op, taken)]
+        out.append((b, rel, ca))
+    return out
+
+
+def _entails(f, g):
+    """does fact f = (n, rel, c) entail fact g = (n, rel', c')?"""
+    if f[0] != g[0]:
+        return False
+    _, r, c = f
+    _, r2, c2 = g
+    if r in ("<", "<="):
+        if r2 == "<":
+            return c < c2 or (c == c2 and r == "<")
+        if r2 == "<=":
+            return c <= c2
+        return False
+    if r2 == ">":
+        return c > c2 or (c == c2 and r == ">")
+    if r2 == ">=":
+        return c >= c2
+    return False
 
 
 _T = None  # current tracer
@@ -157,6 +220,12 @@ class Sym:
             return a
         if op == "mul" and ca == 1:
             return b
+        if op == "mul" and cb is not None and ca is None:
+            na = cur().g.nodes[a.n]
+            if na[0] == "div":
+                cd = Sym(na[2])._cv()
+                if cd is not None and cd != 0 and cb / cd == 1:
+                    return Sym(na[1])
         return Sym(cur().g.mk(op, a.n, b.n))
 
     def __add__(self, o):
@@ -274,10 +343,8 @@ class Sym:
         raise Unsupported("truth value of a symbolic number")
 
     def __float__(self):
-        c = self._cv()
-        if c is None:
-            raise Unsupported("float() of a symbolic number")
-        raise Unsupported("float() would leave the exact layer")
+        # only message formatting ("%e" % x) may do this: the result poisons any arithmetic
+        return _Leaked("nan")
 
     def __int__(self):
         raise Unsupported("int() of a symbolic number")
@@ -298,6 +365,14 @@ class Sym:
 
     def ravel(self):
         return _np.array([self], dtype=object)
+
+    def __getitem__(self, idx):
+        if isinstance(idx, (SymBool, bool)):
+            return self
+        raise Unsupported("indexing a symbolic scalar")
+
+    def __str__(self):
+        return "Sym(%d)" % self.n
 
     def conj(self):
         return self
@@ -338,6 +413,16 @@ class Sym:
 
     def __repr__(self):
         return "Sym(%d)" % self.n
+
+
+def _leak(*a, **k):
+    raise Unsupported("arithmetic on float(symbolic number)")
+
+
+class _Leaked(float):
+    __add__ = __radd__ = __sub__ = __rsub__ = __mul__ = __rmul__ = __truediv__ = __rtruediv__ = _leak
+    __pow__ = __rpow__ = __neg__ = __abs__ = __lt__ = __le__ = __gt__ = __ge__ = __mod__ = __rmod__ = _leak
+    __floordiv__ = __rfloordiv__ = __int__ = __round__ = __bool__ = _leak
 
 
 class SymBool:
@@ -531,17 +616,31 @@ def _objarr(x):
     if isinstance(x, _np.ndarray):
         return x.copy()
     if isinstance(x, Sym):
-        a = _np.empty((), dtype=object)
-        a[()] = x
-        return a
+        return x           # immutable: a "copy" is the same value
     if isinstance(x, (tuple, list)):
-        parts = [_objarr(p) for p in x]
+        parts = []
+        for p in x:
+            q = _objarr(p)
+            if isinstance(q, Sym):
+                a = _np.empty((), dtype=object)
+                a[()] = q
+                q = a
+            parts.append(q)
         return _np.stack(parts, axis=0) if parts else _np.empty((0,), dtype=object)
     if isinstance(x, (int, Fraction)):
         a = _np.empty((), dtype=object)
         a[()] = lift(x)
         return a
     raise Unsupported("np.array of %r" % type(x))
+
+
+def _arr0(x):
+    """a bare Sym as a 0-d object array (for numpy shape functions)"""
+    if isinstance(x, Sym):
+        a = _np.empty((), dtype=object)
+        a[()] = x
+        return a
+    return x
 
 
 class NpShim:
@@ -653,11 +752,11 @@ class NpShim:
 
     @staticmethod
     def stack(xs, axis=0):
-        return _np.stack([_objarr(x) for x in xs], axis=axis)
+        return _np.stack([_arr0(_objarr(x)) for x in xs], axis=axis)
 
     @staticmethod
     def expand_dims(x, axis):
-        return _np.expand_dims(_objarr(x), axis)
+        return _np.expand_dims(_arr0(_objarr(x)), axis)
 
     @staticmethod
     def ndim(x):
